@@ -77,6 +77,7 @@ def run(ctx):
         ctx.guard("restart" + tag, restart_level, ctx, crate, crs, tag)
         ctx.guard("assertions" + tag, c01.assertions, ctx, crate, crs, tag)
         ctx.guard("clause-shape" + tag, c01.clause_shape, ctx, crate, crs, tag)    # which literals a clause has / may move its watch to
+        ctx.guard("encoding" + tag, c01.encoding, ctx, crate, crs, tag)            # no candidate / requirement is left out of the clauses
         import c03, c05, c09
         ctx.guard("new-solvables" + tag, c09.new_solvables, ctx, crate, crs, tag)  # every newly selected solvable gets encoded
         ctx.guard("antecedents" + tag, c03.antecedents, ctx, crate, crs, tag)     # a learnt clause drops none of its literals
